@@ -68,6 +68,7 @@ struct Bus {
 	ref::DownDecoder dec;
 	std::vector<WireRec> wire;
 	std::vector<uint8_t> wire_raw;
+	std::vector<uint8_t> delivered;       // every byte handed to the receiver, in order
 	uint64_t write_calls = 0, reads = 0, empty_polls_since_byte = 0, bytes_delivered = 0;
 	uint64_t frame_seq = 0, answer_ordinal = 0, pkt_count = 0;
 	std::map<uint64_t, Fault> answer_faults;    // by answer ordinal
@@ -200,6 +201,7 @@ struct Bus {
 		uint8_t b = f.bytes[f.pos];
 		if (f.pos == 0) f.first_read_step = sim::step();
 		f.pos++;
+		delivered.push_back(b);
 		bytes_delivered++;
 		empty_polls_since_byte = 0;
 		*ok = 1;
